@@ -32,10 +32,12 @@ Definition run_reqopt (a b : list N) prog :=
 Definition run_disj (k : nat) (ls : list (list N)) prog := run (disj_impl vec_impl) (d_new vec_impl (leaves ls) k) prog.
 Definition run_vec (l : list N) prog := run vec_impl (vec_of l) prog.
 
-(* two-level models: children are leaves or unions of leaves *)
-Definition LU := sum_impl vec_impl (union_impl vec_impl).
-Definition lu_of (c : list N + list (list N)) : st LU :=
+(* two-level models: children are leaves or unions of leaves; [g] = shape of the union's seek_danger *)
+Definition LU_g (g : bool) := sum_impl vec_impl (union_impl_g vec_impl g).
+Definition lu_of_g (g : bool) (c : list N + list (list N)) : st (LU_g g) :=
   match c with inl l => inl (vec_of l) | inr ls => inr (u_build vec_impl (leaves ls)) end.
+Definition LU := LU_g union_guard.
+Definition lu_of := lu_of_g union_guard.
 Definition run_inter_lu (cs : list (list N + list (list N))) (dense : bool) prog :=
   match map lu_of cs with
   | a :: b :: o => run (inter_impl LU) (i_new LU a b o dense) prog
@@ -47,12 +49,13 @@ Definition run_exclude_lu (u : list N + list (list N)) (exs : list (list N + lis
 Definition run_union_lu (cs : list (list N + list (list N))) prog :=
   run (union_impl LU) (u_build LU (map lu_of cs)) prog.
 (* intersection of a leaf with a union of (leaves or unions) *)
-Definition LUU := sum_impl vec_impl (union_impl LU).
-Definition run_inter_luu (a : list N) (cs : list (list N + list (list N))) (leaf_first dense : bool) prog :=
-  let x : st LUU := inl (vec_of a) in
-  let y : st LUU := inr (u_build LU (map lu_of cs)) in
-  if leaf_first then run (inter_impl LUU) (i_new LUU x y [] dense) prog
-  else run (inter_impl LUU) (i_new LUU y x [] dense) prog.
+Definition LUU_g (g : bool) := sum_impl vec_impl (union_impl_g (LU_g g) g).
+Definition run_inter_luu_g (g : bool) (a : list N) (cs : list (list N + list (list N))) (leaf_first dense : bool) prog :=
+  let x : st (LUU_g g) := inl (vec_of a) in
+  let y : st (LUU_g g) := inr (u_build (LU_g g) (map (lu_of_g g) cs)) in
+  if leaf_first then run (inter_impl (LUU_g g)) (i_new (LUU_g g) x y [] dense) prog
+  else run (inter_impl (LUU_g g)) (i_new (LUU_g g) y x [] dense) prog.
+Definition run_inter_luu := run_inter_luu_g union_guard.
 
 (* ---------- meaning of a tree of boolean queries (BooleanWeight::complex_scorer) ---------- *)
 Inductive qshape := QLeaf (l : list N) | QBool (musts shoulds nots : list qshape) (msm : nat).
